@@ -240,7 +240,7 @@ PLANS = {
                 "haystack <= 12; and on GENERATED families: a structured needle (13 kinds, 65..=256 bytes) and a haystack tile of needle-derived pieces, both "
                 "instantiated at scales 1, 4, 16 (64) with complete find_iter / rfind_iter traversals. Oracles: steps <= 96*(n+m)+8192; steps(4n,4m) <= 6*steps(n,m) and steps(16n,16m) <= 24*steps(n,m) for needles >= 65 bytes on "
                 "families traversed completely (linear gives 4 resp. 16, a term in n*m gives 16 resp. 256); for generated families the cost per byte must "
-                "not reach 12 steps while being 3x its value at scale 1 (bounded cost saturates below 6 on any input, whatever regime the heuristics are in). Non-trivial: n >= 4096.",
+                "not keep growing: >= 1.8x over each of two consecutive x4 scale steps ending at >= 12 steps per byte is a violation (single expensive instances are not: the constant depends on the instance). Non-trivial: n >= 4096.",
         "stages": [
             {"name": "steps", "cmd": "steps", "configs": cfgs(NATIVE), "shards": shards(16, 16), "args": ["--scale", "12"]},
             {"name": "steps-exh", "cmd": "steps-exh", "configs": cfgs(NATIVE), "shards": shards(4, 8)},
